@@ -90,7 +90,7 @@ class LDMMaintenance:
 
         return provider_data
 
-    def update_provider_data(self, data_object_id: int, data_object: dict) -> None:
+    def update_provider_data(self, data_object_id: int, data_object: dict) -> int | None:
         """
         Method created in order to update data from the data containers.
 
@@ -100,13 +100,21 @@ class LDMMaintenance:
         data_object : dict
         """
         try:
+            data_container = self.data_containers.get(index=data_object_id)
+            if data_container is None:
+                return None
+            # Only the data object changes; application id, timestamp, location and time validity are kept.
+            updated_data_container = dict(data_container)
+            updated_data_container["dataObject"] = data_object
             self.data_containers.update(
-                data_object,
+                updated_data_container,
                 index=data_object_id,
             )
             self.logging.debug("Data container updated: %s", data_object_id)
+            return data_object_id
         except (KeyError, json.decoder.JSONDecodeError) as e:
             print(f"Error updating data container: {str(e)}")
+            return None
 
     def del_provider_data(self, data_object: dict) -> None:
         """
